@@ -40,6 +40,9 @@ type Scenario struct {
 	Quick      Bounds
 	Thorough   Bounds
 	NoRace     bool // exclude from the C13 race-mode exploration
+	// ThoroughOnly scenarios run only in the thorough tier; QuickOnly only in the quick tier.
+	ThoroughOnly bool
+	QuickOnly    bool
 	ObsNames   map[int32]string
 	// Direct scenarios are plain exhaustive input enumerations (no scheduler): the
 	// function enumerates shard `shard` of `nshards` and reports through rep.
